@@ -163,6 +163,8 @@ TreeFeatures(n) ==
     \cup (IF \E p \in SetItems(n) : p[2] \in {"x", "X"} /\ p[1] \in MetaInside THEN {"enc_set_meta"} ELSE {})
     \cup (IF \E p \in Lits(n) \cup SetItems(n) : p[2] \in {"u", "U"} THEN {"uni_esc"} ELSE {})
     \cup (IF \E p \in Lits(n) : p[2] = "esc" /\ p[1] = 36 THEN {"esc_dollar"} ELSE {})
+    \* a literal backslash written \\ (in front of a letter it looks like a class shorthand to a careless re-writer)
+    \cup (IF \E p \in Lits(n) : p[2] = "esc" /\ p[1] = 92 THEN {"lit_bs"} ELSE {})
 
 ---------------------------------------------------------------------------
 (* The lexical grammar of an XSD pattern (XML Schema Part 2, F: SingleCharEsc, MultiCharEsc,    *)
